@@ -117,7 +117,7 @@ class FactEngine(object):
             # (in a const method the elements of member containers cannot change either: element reads are stable)
             relaxed = isref or (const_method and all(_root_is_this(y) for y in walk(init)
                                                        if y.get('kind') == 'CXXOperatorCallExpr'))
-            if not _pure(init, ref=relaxed) or not stable(init, d, ref=relaxed) or d.get('kind') == 'ParmVarDecl':
+            if not _pure(init, ref=relaxed, folder=self.folder) or not stable(init, d, ref=relaxed) or d.get('kind') == 'ParmVarDecl':
                 continue
             # only scalar / pointer / reference locals
             dt = dtype(d)
@@ -297,7 +297,7 @@ class FactEngine(object):
         if k == 'CXXBoolLiteralExpr':
             return [([], bool(x.get('value')))]
         v = self.folder.fold(x)
-        if v is not None and (dtype(x) == 'bool' or k == 'IntegerLiteral'):
+        if v is not None and ((dtype(x) or '').replace('const ', '').strip() == 'bool' or k == 'IntegerLiteral'):
             return [([], bool(v))]
         if k == 'ConditionalOperator':
             c, a, b = kids(x)
@@ -311,7 +311,7 @@ class FactEngine(object):
         is_test = (k == 'BinaryOperator' and x.get('opcode') in ('<', '<=', '>', '>=', '==', '!=')) or \
             (k == 'CXXOperatorCallExpr' and callee(x) and callee(x)[0] == 'fn' and
              callee(x)[1].get('name') in ('operator<', 'operator<=', 'operator>', 'operator>=', 'operator==', 'operator!='))
-        if is_test or dtype(x) == 'bool' or dtype(x).endswith('*'):
+        if is_test or (dtype(x) or '').replace('const ', '').strip() == 'bool' or dtype(x).endswith('*'):
             return [(self.cond_facts(x, True), True), (self.cond_facts(x, False), False)]
         return [([], self.key(x))]
 
@@ -322,7 +322,7 @@ class FactEngine(object):
         base = list(self.facts_at(rn))
         if not ks:
             return [(frozenset(base), None)]
-        t = dtype(ks[0])
+        t = (dtype(ks[0]) or '').replace('const ', '').strip()
         if t != 'bool':
             return [(frozenset(base + list(fs)), self.key(arm)) for (fs, arm) in self.value_cases(ks[0])]
         return [(frozenset(base + list(fs)), v) for (fs, v) in self.bool_cases(ks[0])]
@@ -595,9 +595,11 @@ def _root_is_this(opcall):
     return x is not None and x.get('kind') == 'CXXThisExpr'
 
 
-def _pure(e, ref=False):
+def _pure(e, ref=False, folder=None):
     for x in walk(e):
         k = x.get('kind')
+        if k == 'CallExpr' and folder is not None and folder.fold(x) is not None:
+            continue            # a call the constant folder evaluates (numeric_limits<T>::max() and the like)
         if k == 'CXXOperatorCallExpr' and ref:
             c = callee(x)
             if c and c[0] == 'fn' and c[1].get('name') in ('operator[]', 'operator*', 'operator->'):
